@@ -546,6 +546,76 @@ pub enum RObs {
     Other(String),
 }
 
+/// a run with `-X T`, T unknown to ledger and price DB
+#[derive(Clone, Debug, PartialEq)]
+pub enum UObs {
+    NotFound,
+    Report,
+    Other(String),
+}
+
+pub struct URun {
+    pub kind: &'static str,
+    pub args: Vec<String>,
+    pub obs: UObs,
+}
+
+/// names that no generated ledger or price DB mentions
+pub const NEVER_MENTIONED: [&str; 6] = ["ZZZ", "XAU", "GBP", "BTC", "US", "USDX"];
+
+/// a target name unknown to this case: never mentioned anywhere, or a known commodity in
+/// another case of letters (names are case-sensitive)
+pub fn unknown_target(r: &mut Rng, known: &[usize]) -> (&'static str, String) {
+    if known.is_empty() || r.chance(1, 2) {
+        ("never_mentioned", r.pick(&NEVER_MENTIONED).to_string())
+    } else {
+        let name = COMMODITIES[*r.pick(known)];
+        let v = match r.below(3) {
+            0 => name.to_lowercase(),
+            1 => {
+                let mut c = name.chars();
+                let f = c.next().unwrap();
+                format!("{}{}", f, c.as_str().to_lowercase())
+            }
+            _ => {
+                let mut c = name.chars();
+                let f = c.next().unwrap();
+                format!("{}{}", f.to_lowercase(), c.as_str())
+            }
+        };
+        ("known_name_in_other_case", v)
+    }
+}
+
+/// run the command; `name` is the unknown target it was given
+pub fn run_unknown(kind: &'static str, args: Vec<String>, name: &str) -> URun {
+    let refs: Vec<&str> = args.iter().map(|s| s.as_str()).collect();
+    let r = crate::cli::run(&refs);
+    let obs = if r.panicked {
+        UObs::Other("panic".into())
+    } else if r.ok {
+        UObs::Report
+    } else if r.stderr.contains(&format!("commodity {} not found", name)) {
+        UObs::NotFound
+    } else {
+        UObs::Other(r.stderr.chars().take(200).collect())
+    };
+    let shown = args.iter().map(|a| if a.contains("/scratch/") { format!("<{}>", a.rsplit('/').next().unwrap_or("")) } else { a.clone() }).collect();
+    URun { kind, args: shown, obs }
+}
+
+pub fn uobs_term(u: &UObs) -> &'static str {
+    match u {
+        UObs::NotFound => "UNotFound",
+        UObs::Report => "UReport",
+        UObs::Other(_) => "UOther",
+    }
+}
+
+pub fn urun_json(u: &URun) -> serde_json::Value {
+    serde_json::json!({"unknown_target": u.kind, "args": u.args.join(" "), "result": format!("{:?}", u.obs)})
+}
+
 pub fn robs_term(o: &RObs) -> String {
     match o {
         RObs::Ok(a) => format!("(ROk {})", amount_term(a)),
